@@ -364,6 +364,12 @@ func (o *Obligation) solve(tier string, idx int) {
 			o.Result = ""
 			o.solve(tier, idx*100+k)
 			total += o.Ms
+			if o.Cover {
+				if o.Result == "unsat-cover-ok" {
+					break
+				}
+				continue
+			}
 			if o.Result != "unsat" {
 				break
 			}
